@@ -18,6 +18,9 @@ ASSUMPTIONS = [
     "'hard' families: tags {a, an unhashable list, '', absent}; class A (and C through inheritance) has a __post_init__ that raises "
     "KeyError for the payload x == 13: after every decode event the same tag is decoded again with that payload, and the KeyError "
     "must surface as it is (the tag is known, the class was selected)",
+    "two bases: ONE Discriminator object annotates two unrelated hierarchies (Shape <- Circle 'v1', Square 'sq'; Animal <- Cat 'v1', "
+    "Dog 'dog') inside one tuple field / two fields / a codec; tags at both positions in {v1, sq, dog, zz} and an earlier call are "
+    "solver variables: each position resolves among the subclasses of its own base only",
     "no-field mode: hierarchy NBase <- NA <- NC, NBase <- NB of mixin or plain dataclasses; the point at which the decoder / holder "
     "class is created (after 0..3 subclasses exist) and the point of a first call (after 0..3 subclasses, or never) are solver "
     "variables; which required keys are present and whether NA's constructor "
@@ -70,6 +73,8 @@ def harnesses(tier, seed):
         hs.append(gen.custom_harness("C12", "c12", Schema("nofield_" + name, "int", ""), "nofield", "", kw))
     for name, kw in (("config", "style='config'"), ("annotated", "style='annotated'"), ("codec", "style='codec'")):
         hs.append(gen.custom_harness("C12", "c12", Schema("nested_" + name, "int", ""), "nested", "", kw))
+    for st in ("tuple", "fields", "codec"):
+        hs.append(gen.custom_harness("C12", "c12", Schema("twobase_" + st, "int", ""), "twobase", "", "style=%r" % st))
     return hs
 
 
